@@ -160,6 +160,9 @@ func runC12(p *Prog, r *Report, tier string) {
 		r.Undecided("R-STOP.netread", "anchor: network-reading goroutines of pkg/collector", "pkg/collector", fmt.Sprintf("expected the accept loop, the TCP reader and the two UDP readers, found %d", nNet))
 	}
 
+	// the template list handed out by the lookup is shared between client goroutines without the lock: replacement must
+	// not write into it (C04's fresh-list rule)
+	checkTemplateReplace(p, r)
 	// datagram buffers: what is handed to the per-client goroutine must not be overwritten by the next read
 	if hu := p.Fn("(*pkg/collector.CollectingProcess).handleUDPMessage"); hu != nil {
 		for _, cs := range g.callers[hu] {
